@@ -175,7 +175,7 @@ def _secret(kind, value, alg_i, fmt_i):
     raise ValueError(kind)
 
 
-def register_get(kind, version, nbytes):
+def register_get(kind, version, nbytes, fix_names=None):
     version = tuple(version)
 
     def h(value: bytes, alg_i: int, name0: str, name1: str, nnames: int, m0: bool, m1: bool, m2: bool,
@@ -188,6 +188,8 @@ def register_get(kind, version, nbytes):
             return True
         if nnames == 2 and name0 == name1:
             return True                              # duplicate names are refused (not this property's subject)
+        if fix_names is not None and nnames != fix_names:
+            return True
         for ch in name0 + name1 + group:
             if not (33 <= ord(ch) <= 126):
                 return True
@@ -323,12 +325,13 @@ def conditions(tier):
             for nb in ((8, 16, 32) if thorough else (16,)):
                 if k != "SymmetricKey" and nb != 16:
                     continue
-                out.append(Cond("register-get-%s-%d.%d-%dB" % (k, v[0], v[1], nb), "register_get",
-                                dict(kind=k, version=list(v), nbytes=nb),
-                                bounds="Register a %s with %d arbitrary value bytes, 3 algorithm/type members, 0-2 names "
-                                       "(1 printable character each), any subset of 3 usage masks, sensitive flag, object "
-                                       "group; then Get and GetAttributes under KMIP %d.%d" % (k, nb, v[0], v[1]),
-                                timeout=900, part="register-get"))
+                for nn in (0, 1, 2):
+                    out.append(Cond("register-get-%s-%d.%d-%dB-%dnames" % (k, v[0], v[1], nb, nn), "register_get",
+                                    dict(kind=k, version=list(v), nbytes=nb, fix_names=nn),
+                                    bounds="Register a %s with %d arbitrary value bytes, 3 algorithm/type members, %d "
+                                           "names (1 printable character each), any subset of 3 usage masks, sensitive "
+                                           "flag, object group; then Get and GetAttributes under KMIP %d.%d"
+                                           % (k, nb, nn, v[0], v[1]), timeout=900, part="register-get"))
     for op in ("GET", "GET_ATTRIBUTES", "GET_ATTRIBUTE_LIST", "LOCATE", "QUERY"):
         for k in (["SymmetricKey", "SecretData"] if not thorough else stubs.KINDS):
             out.append(Cond("readonly-%s-%s" % (op, k), "readonly", dict(op=op, kind=k),
